@@ -1192,8 +1192,8 @@ def check_upgrade(h, f=None):
                                  'second upgrade socket carried %r' % (
                                      sid, [d for _, _, d in conn.sent_s][:3]
                                  )))
-                if conn.req.seq_arrive > first_ok and okc.server_closed \
-                        and not f.causes(sid) and not s['disconnect']:
+                if conn.req.seq_arrive > first_ok and not f.causes(sid) \
+                        and (okc.server_closed or s['disconnect']):
                     out.append(V('second-upgrade-refused',
                                  '%s|second-upgrade-disturbed-first' % impl,
                                  'session %s: the established WebSocket was '
